@@ -170,10 +170,19 @@ def roundtrip(j, root, check_types=True):
     """structure j as root with the real converter, check C01/C03/C14 concretely.
     returns (ok, detail, out_json)"""
     c = _conv()
+    j0 = json.loads(json.dumps(j))
     try:
         obj = c.structure(j, root)
     except BaseException as e:  # noqa
         return False, "structure raised %s: %s" % (type(e).__name__, str(e)[:300]), None
+    if j != j0:
+        # the caller's value was modified: handing the same value to structure() again is then a different call
+        try:
+            c.structure(j, root)
+            again = "a second structure() of the same object happens to succeed"
+        except BaseException as e:  # noqa
+            again = "a second structure() of the same object raises %s" % type(e).__name__
+        return False, "structure() modified the value it was given (%s); %s" % (loses_nothing(j0, j) or loses_nothing(j, j0) or "changed", again), None
     if check_types:
         r = well_typed(obj, root)
         if r:
